@@ -385,6 +385,10 @@ func (fd *Client) Query(ctx context.Context, input *dynamodb.QueryInput, opt ...
 	queryInput := mapDynamoToTypesQueryInput(input, indexName)
 	queryInput.ScanIndexForward = input.ScanIndexForward == nil || aws.ToBool(input.ScanIndexForward)
 
+	if err := table.ValidateKeyCondition(queryInput); err != nil {
+		return nil, mapKnownError(err)
+	}
+
 	items, lastKey := table.SearchData(queryInput)
 
 	count := int64(len(items))
